@@ -29,6 +29,7 @@ type Contract struct {
 	Props    []string
 	Requires []Clause
 	Ensures  []Clause
+	CallSites []Clause // obligations at every call through a function value in this function ($fnbase, $arg<i>, $callee)
 	Loops    map[int]*LoopSpec
 	Inline   bool     // body is inlined at call sites (its loop specs are used there)
 	Pure     bool     // ensures clauses define the result as a function of the arguments (no heap effect)
@@ -67,7 +68,7 @@ type Spec struct {
 }
 
 var clauseKeywords = map[string]bool{"func": true, "requires": true, "ensures": true, "loop": true, "invariant": true,
-	"decreases": true, "lemma": true, "macro": true, "dyncallees": true, "fieldinv": true, "uses": true, "ghost": true, "axiom": true, "inline": true, "assigns": true, "props": true, "trusted": true, "pure": true, "end": true}
+	"decreases": true, "lemma": true, "macro": true, "dyncallees": true, "fieldinv": true, "uses": true, "ghost": true, "axiom": true, "inline": true, "assigns": true, "callsite": true, "props": true, "trusted": true, "pure": true, "end": true}
 
 // ParseSpec reads the //@ lines of the guarded contract file.
 func ParseSpec(lines []load.ContractLine) *Spec {
@@ -166,6 +167,17 @@ func ParseSpec(lines []load.ContractLine) *Spec {
 		case "dyncallees":
 			if cur != nil {
 				cur.DynCallees = append(cur.DynCallees, strings.Fields(r.rest)...)
+			}
+		case "callsite":
+			if cur == nil {
+				sp.Errors = append(sp.Errors, fmt.Sprintf("line %d: callsite outside func", r.line))
+				continue
+			}
+			if c, ok := parseClause(r); ok {
+				if c.Label == "" {
+					c.Label = strconv.Itoa(len(cur.CallSites) + 1)
+				}
+				cur.CallSites = append(cur.CallSites, c)
 			}
 		case "requires", "ensures":
 			if cur == nil {
